@@ -56,6 +56,11 @@ def random_graph_script(rng, n_nodes, n_queries):
         for j in range(i, n_nodes):
             if (i != j and rng.random() < p) or (i == j and rng.random() < 0.08):
                 s.append({"op": "AddLink", "g": "G", "a": ids[i], "b": ids[j], "rel": rng.choice(rels), "props": {}})
+    # history: nodes of the decoy graph merged into G leave connections from G's nodes to nodes that still carry the
+    # other graph's id; queries on G must not see them
+    if rng.random() < 0.5:
+        for x in rng.sample(ids, rng.choice([1, 2])):
+            s.append({"op": "MergeNodes", "g": "G", "n": x, "h": "decoy", "pol": {}})
     for _ in range(n_queries):
         k = rng.random()
         if k < .25:
